@@ -1,6 +1,14 @@
 from typing import Any, Protocol  # noqa: F401
 
 
+def set_header(headers: dict[str, str], name: str, value: str) -> None:
+    """Set a header, replacing any entry whose name differs only in case (header names are case-insensitive)."""
+    lowered = name.lower()
+    for existing in [key for key in headers if key != name and key.lower() == lowered]:
+        del headers[existing]
+    headers[name] = value
+
+
 class BaseAuth(Protocol):
     """Protocol for authentication plugins."""
 
